@@ -5,6 +5,10 @@
   Utf8TableC.lean     `tableC : Nat -> Nat`    from the `UTF8VALIDATOR_DFA[] = { ... }` initialiser of nvx/_utf8validator.c,
                       plus the C `#define UTF8_ACCEPT/UTF8_REJECT`
   Utf8UnrolledC.lean  `unrolledC : Nat -> Nat -> Nat`  from the `DFA_TRANSITION(state, octet)` macro (if-chain) of the C file
+  Utf8LoopC.lean      `tableLoopGuardsReject`, `unrolledLoopGuardsReject : Bool`  from the `while (...)` conditions of
+                      `_nvx_utf8vld_validate_table` / `_nvx_utf8vld_validate_unrolled`: `i < length` -> false (the loop body
+                      runs when the call is entered in the reject state, so the rejection is reported again: repaired F1),
+                      `i < length && state != 1` -> true (the loop is skipped and the rejection is forgotten: F1)
 
 The tables are emitted as functions with one leaf per cell, shaped as a balanced decision tree on the index (a lookup is
 ~9 comparisons for the kernel under `decide +kernel`; a flat 400-arm `match` on Nat literals was measured 10x slower);
@@ -250,6 +254,32 @@ def read_c_macro(src):
     return tree
 
 
+def read_c_loop_guard(src, fname):
+    """the condition of the single `while` loop of C function `fname`: does it also test `state != 1`?"""
+    s = strip_c_comments(src)
+    m = re.search(r"\bint\s+" + re.escape(fname) + r"\s*\([^)]*\)\s*\{", s)
+    if not m:
+        raise ShapeError(f"function {fname} not found")
+    # body up to the matching brace
+    depth, i = 1, m.end()
+    while i < len(s) and depth:
+        depth += {"{": 1, "}": -1}.get(s[i], 0)
+        i += 1
+    if depth:
+        raise ShapeError(f"unbalanced braces in {fname}")
+    body = s[m.end():i - 1]
+    conds = re.findall(r"\bwhile\s*\(([^{]*)\)\s*\{", body)
+    if len(conds) != 1 or re.search(r"\b(for|do|goto)\b", body):
+        raise ShapeError(f"{fname}: expected exactly one while loop, found {len(conds)}")
+    toks = [v for _, v in tokenize(conds[0])]
+    if toks == ["i", "<", "length"]:
+        return False
+    if toks in (["i", "<", "length", "&&", "state", "!=", "1"], ["i", "<", "length", "&&", "state", "!=", "UTF8_REJECT"],
+                ["state", "!=", "1", "&&", "i", "<", "length"], ["state", "!=", "UTF8_REJECT", "&&", "i", "<", "length"]):
+        return True
+    raise ShapeError(f"{fname}: unrecognised loop condition `{conds[0].strip()}`")
+
+
 _LEAN_OP = {"==": "==", "!=": "!=", ">=": "≥", "<=": "≤", ">": ">", "<": "<"}
 
 
@@ -327,6 +357,16 @@ def translate(ctx=None):
             "namespace Abverif.Utf8.Gen\n\n"
             "/-- `DFA_TRANSITION(state, octet)`: the new value of `state` -/\n"
             "def unrolledC (state octet : Nat) : Nat :=\n" + body + "\n\nend Abverif.Utf8.Gen\n"))
+        gt = read_c_loop_guard(src, "_nvx_utf8vld_validate_table")
+        gu = read_c_loop_guard(src, "_nvx_utf8vld_validate_unrolled")
+        core.write_if_changed(GEN / "Utf8LoopC.lean", (
+            "-- GENERATED by translate/utf8.py from the while-conditions of _nvx_utf8vld_validate_table/_unrolled "
+            "(src/autobahn/nvx/_utf8validator.c) — do not edit.\n"
+            "namespace Abverif.Utf8.Gen\n\n"
+            "/-- does the loop condition also test `state != 1` (then a call entered in the reject state skips the loop)? -/\n"
+            f"def tableLoopGuardsReject : Bool := {str(gt).lower()}\n"
+            f"def unrolledLoopGuardsReject : Bool := {str(gu).lower()}\n\n"
+            "end Abverif.Utf8.Gen\n"))
     except ShapeError as e:
         errors.append(f"_utf8validator.c: {e}")
     if errors:
